@@ -19,6 +19,8 @@ type verifEntry struct {
 type verifStore struct {
 	mu       sync.Mutex
 	entries  []verifEntry
+	failGetAt, failHasAt, failPutAt int // index of the failing call (may be symbolic), -1 = none; see newVerifStore
+	useAt    bool
 	failGet  map[int]bool // the n-th GetChunk call fails
 	failHas  map[int]bool
 	failPut  map[int]bool
@@ -30,6 +32,17 @@ type verifStore struct {
 	closed   bool
 	yield    bool     // call vYield() inside operations (interleaving point)
 	corrupt  map[int][]byte // the n-th GetChunk returns this data under the requested id (unverified)
+	observed bool           // some call actually failed
+}
+
+// symbolicFaults lets the solver choose the index of the failing call of each kind
+// (none, or any call number below limit).
+func (s *verifStore) symbolicFaults(limit int) {
+	s.useAt = true
+	s.failGetAt, s.failHasAt, s.failPutAt = vInt("fail-get-at"), vInt("fail-has-at"), vInt("fail-put-at")
+	vAssume(s.failGetAt >= -1 && s.failGetAt < limit)
+	vAssume(s.failHasAt >= -1 && s.failHasAt < limit)
+	vAssume(s.failPutAt >= -1 && s.failPutAt < limit)
 }
 
 func (s *verifStore) add(data []byte) ChunkID {
@@ -56,7 +69,8 @@ func (s *verifStore) GetChunk(id ChunkID) (*Chunk, error) {
 	s.gets++
 	s.getLog = append(s.getLog, id)
 	s.mu.Unlock()
-	if s.failGet[n] {
+	if s.failGet[n] || (s.useAt && n == s.failGetAt) {
+		s.observed = true
 		return nil, verifErrInjected
 	}
 	if b, ok := s.corrupt[n]; ok {
@@ -79,7 +93,8 @@ func (s *verifStore) HasChunk(id ChunkID) (bool, error) {
 	defer s.mu.Unlock()
 	n := s.hass
 	s.hass++
-	if s.failHas[n] {
+	if s.failHas[n] || (s.useAt && n == s.failHasAt) {
+		s.observed = true
 		return false, verifErrInjected
 	}
 	_, ok := s.find(id)
@@ -94,7 +109,8 @@ func (s *verifStore) StoreChunk(c *Chunk) error {
 	defer s.mu.Unlock()
 	n := s.puts
 	s.puts++
-	if s.failPut[n] {
+	if s.failPut[n] || (s.useAt && n == s.failPutAt) {
+		s.observed = true
 		return verifErrInjected
 	}
 	b, err := c.Data()
